@@ -237,6 +237,9 @@ package core
 //@   logged
 //@ func GetAggregatedBloomFilter
 //@   trusted
+//@ func DeleteRunningEventFilter
+//@   trusted
+//@   logged as DeleteSnapshot
 //@ func (*RunningEventFilter).insert
 //@   props C05
 //@   arith int
@@ -247,16 +250,44 @@ package core
 //@   callsite WriteAggregatedBloomFilter@*: through_the_writer: $0 == writer
 //@   ensures at_most_one_window: calls_WriteAggregatedBloomFilter == old(calls_WriteAggregatedBloomFilter) || calls_WriteAggregatedBloomFilter == old(calls_WriteAggregatedBloomFilter) + 1
 //@   ensures nothing_deleted: calls_DeleteAggregatedBloomFilter == old(calls_DeleteAggregatedBloomFilter)
+// A revert also drops the snapshot persisted at the last shutdown, through the same writer (defect
+// F17, fixed: a stale snapshot survived a reorg below it and, after a crash, hid the replacement
+// blocks' events from event queries).
 //@ func (*RunningEventFilter).onReorg
-//@   props C05, C04
+//@   props C05, C04, C09
 //@   arith int
 //@   nosafe
 //@   requires f != nil
 //@   modifies *
-//@   assigns calls_DeleteAggregatedBloomFilter, arg_DeleteAggregatedBloomFilter_w, arg_DeleteAggregatedBloomFilter_fromBlock, arg_DeleteAggregatedBloomFilter_toBlock
+//@   assigns calls_DeleteAggregatedBloomFilter, arg_DeleteAggregatedBloomFilter_w, arg_DeleteAggregatedBloomFilter_fromBlock, arg_DeleteAggregatedBloomFilter_toBlock, calls_DeleteSnapshot, arg_DeleteSnapshot_w
 //@   callsite DeleteAggregatedBloomFilter@*: through_the_writer: $0 == writer
+//@   callsite DeleteRunningEventFilter@*: through_the_writer: $0 == writer
+//@   ensures stale_snapshot_dropped: result == nil ==> calls_DeleteSnapshot == old(calls_DeleteSnapshot) + 1
 //@   ensures at_most_one_window: calls_DeleteAggregatedBloomFilter == old(calls_DeleteAggregatedBloomFilter) || calls_DeleteAggregatedBloomFilter == old(calls_DeleteAggregatedBloomFilter) + 1
 //@   ensures nothing_written: calls_WriteAggregatedBloomFilter == old(calls_WriteAggregatedBloomFilter)
+// At start-up the stored snapshot is resumed only if it is not ahead of the chain: a snapshot that
+// names a next block beyond head+1 was written before blocks were reverted and is rebuilt from the
+// headers, never trimmed back (its bits below the head may describe replaced blocks).
+//@ func GetRunningEventFilter
+//@   trusted
+//@ func (*RunningEventFilter).NextBlock
+//@   trusted
+//@ func (*RunningEventFilter).InnerFilter
+//@   trusted
+//@ func NewRunningEventFilterHot
+//@   trusted
+//@ func fillRunningEventFilter
+//@   trusted
+//@   modifies *
+//@ func rebuildRunningEventFilter
+//@   trusted
+//@   modifies *
+//@ func InitializeRunningEventFilter
+//@   props C09
+//@   arith int
+//@   nosafe
+//@   modifies *
+//@   callsite NewRunningEventFilterHot@*: stored_filter_only_if_not_ahead: $1 == inner ==> next <= latest + 1
 // InsertWithBatch / OnReorgWithBatch only forward their batch to insert / onReorg; they carry no
 // contract here because the state back-ends' contracts log calls of them under their own names.
 
